@@ -95,6 +95,8 @@ package clip
 //@ func LineString(b, ls, opts)
 //@   requires forall k :: 0 <= k && k < len(opts) ==> opts[k] != nil
 //@   ensures result == nil <==> len(result) == 0
+// without options (closed box): a line whose last vertex is in the box is never clipped away
+//@   ensures len(opts) == 0 && len(ls) >= 2 && bitCode(b, ls[len(ls)-1]) == 0 ==> len(result) >= 1 && same(result[len(result)-1][len(result[len(result)-1])-1], ls[len(ls)-1])
 //@   ensures forall k :: 0 <= k && k < len(result) ==> len(result[k]) >= 1
 //@   opt funcsPreserve=S:orb.Point,S:orb.LineString,S:clip.Option
 //@   loop 1: invariant forall k :: 0 <= k && k < len(opts) ==> opts[k] != nil
